@@ -11,6 +11,7 @@ from the live Python classes on every run.
 -/
 import MesonModel.ArgList.SpecLemmas
 import MesonModel.ArgList.NativeLemmas
+import MesonModel.ArgList.RefLemmas
 import MesonModel.Generated.ArgTables
 
 namespace MesonModel.Props.C13
@@ -102,6 +103,100 @@ theorem eq_objects_compares_eager_lists (cfg : Cfg) (h : List State) (i j : Nat)
 example : hrun (cfgOf clikeTables) []
     [.new [['-', 'D', 'x'], ['-', 'O', '2']], .new [['-', 'D', 'x']], .on 1 (.iadd [['-', 'O', '2']]), .eqObj 0 1] =
     [.none, .none, .none, .bool true] := by
+  decide
+
+/-! ### sharing: list objects as locations
+
+`RefModel.lean` makes the Python list objects explicit: memory is a store of list cells, an object holds
+the address of its `_container`, the caller's lists are addresses too, and operations write through
+addresses (in place, or re-binding to a fresh cell -- for every policy `pol`).  `Sep m` says that all
+these addresses are different.  With the constructor that copies (`alias = false`) the machine *is* the
+value-level machine, so the theorems above apply to every location; with the constructor that keeps the
+caller's list the property fails. -/
+
+/-- **the reference-level machine is the value-level machine**, for every operation, write policy and
+separated memory; separation is preserved -/
+theorem ref_machine_is_value_machine (pol : State → Op → Bool) (cfg : Cfg) (m : RMem) (op : ROp) (hs : Sep m) :
+    absM (rstep false pol cfg m op).1 = (vstep cfg (absM m) op).1 ∧
+    (rstep false pol cfg m op).2 = (vstep cfg (absM m) op).2 ∧
+    Sep (rstep false pol cfg m op).1 :=
+  rstep_simulates pol cfg m op hs
+
+/-- for whole scripts from the empty memory: constructors from caller-owned lists, caller-side changes
+of those lists afterwards, operations fed with them, copies, in any interleaving -/
+theorem ref_run_is_value_run (pol : State → Op → Bool) (cfg : Cfg) (ops : List ROp) :
+    rrun false pol cfg emptyMem ops = vrun cfg (absM emptyMem) ops :=
+  rrun_eq_vrun pol cfg ops emptyMem sep_empty
+
+/-- **footprint**: an operation on object `i` leaves every other object and every caller-owned list as
+it was -/
+theorem ops_do_not_touch_other_locations (pol : State → Op → Bool) (cfg : Cfg) (m : RMem) (i : Nat) (op : Op)
+    (hs : Sep m) :
+    (∀ j, j ≠ i → (absM (rstep false pol cfg m (.on i op)).1).objs[j]? = (absM m).objs[j]?) ∧
+    (absM (rstep false pol cfg m (.on i op)).1).xs = (absM m).xs := by
+  rw [(rstep_simulates pol cfg m (.on i op) hs).1]
+  simp only [vstep]
+  cases (absM m).objs[i]? with
+  | none => exact ⟨fun _ _ => rfl, rfl⟩
+  | some s => exact ⟨fun j hj => by simp [List.getElem?_set_ne (Ne.symm hj)], rfl⟩
+
+/-- the list handed to `+=`, `extend_direct`, `extend_preserving_lflags`, `==` is only read -/
+theorem list_parameter_is_not_modified (pol : State → Op → Bool) (cfg : Cfg) (m : RMem) (i k : Nat) (lop : LOp)
+    (hs : Sep m) :
+    (∀ j, j ≠ i → (absM (rstep false pol cfg m (.onX i lop k)).1).objs[j]? = (absM m).objs[j]?) ∧
+    (absM (rstep false pol cfg m (.onX i lop k)).1).xs = (absM m).xs := by
+  rw [(rstep_simulates pol cfg m (.onX i lop k) hs).1]
+  simp only [vstep]
+  cases (absM m).objs[i]? with
+  | none => exact ⟨fun _ _ => rfl, rfl⟩
+  | some s =>
+    cases (absM m).xs[k]? with
+    | none => exact ⟨fun _ _ => rfl, rfl⟩
+    | some l => exact ⟨fun j hj => by simp [List.getElem?_set_ne (Ne.symm hj)], rfl⟩
+
+/-- constructing an object from the caller's list, and copying an object, leave all existing objects and
+all caller-owned lists as they were, and the caller changing its list afterwards changes no object -/
+theorem constructor_and_caller_frame (pol : State → Op → Bool) (cfg : Cfg) (m : RMem) (k : Nat) (a : Arg)
+    (hs : Sep m) :
+    (absM (rstep false pol cfg m (.newX k)).1).xs = (absM m).xs ∧
+    (∀ j, j < m.objs.length → (absM (rstep false pol cfg m (.newX k)).1).objs[j]? = (absM m).objs[j]?) ∧
+    (absM (rstep false pol cfg m (.xappend k a)).1).objs = (absM m).objs := by
+  refine ⟨?_, ?_, ?_⟩
+  · rw [(rstep_simulates pol cfg m (.newX k) hs).1]
+    simp only [vstep]
+    cases (absM m).xs[k]? <;> rfl
+  · intro j hj
+    rw [(rstep_simulates pol cfg m (.newX k) hs).1]
+    simp only [vstep]
+    cases (absM m).xs[k]? with
+    | none => rfl
+    | some l =>
+      have : j < (absM m).objs.length := by simpa [absM] using hj
+      simp [List.getElem?_append_left this]
+  · rw [(rstep_simulates pol cfg m (.xappend k a) hs).1]
+    simp only [vstep]
+    cases (absM m).xs[k]? <;> rfl
+
+/-- the script of the counterexample: one caller-owned list, an object built from it and extended, then a
+second object built from the same list (what `BuildTarget.get_single_compile_base_args` does per source) -/
+def sharedListScript : List ROp :=
+  [.xlist [['-', 'O', '2'], ['-', 'g']], .newX 0, .on 0 (.iadd [['-', 'w']]), .on 0 .iter, .newX 0, .on 1 .iter]
+
+/-- with the copying constructor the second object reads the caller's two arguments ... -/
+theorem copying_constructor_on_witness :
+    rrun false pyPolicy (cfgOf baseTables) emptyMem sharedListScript =
+      [.none, .none, .none, .list [['-', 'O', '2'], ['-', 'g'], ['-', 'w']], .none, .list [['-', 'O', '2'], ['-', 'g']]] := by
+  decide
+
+/-- ... **with a constructor that keeps the caller's list the property fails**: the flush of the first
+object writes into the shared list, the second object starts with the first one's argument ("an argument
+is invented"), and the machine is no longer the value-level one -/
+theorem aliasing_constructor_counterexample :
+    rrun true pyPolicy (cfgOf baseTables) emptyMem sharedListScript =
+      [.none, .none, .none, .list [['-', 'O', '2'], ['-', 'g'], ['-', 'w']], .none,
+       .list [['-', 'O', '2'], ['-', 'g'], ['-', 'w']]] ∧
+    rrun true pyPolicy (cfgOf baseTables) emptyMem sharedListScript ≠
+      vrun (cfgOf baseTables) (absM emptyMem) sharedListScript := by
   decide
 
 /-! ### the eager `+=` is the specification -/
